@@ -7,6 +7,7 @@ REPO = os.environ.get("VERIF_REPO", "/repo")
 WORK = os.path.join(VERIF, ".work")
 LEAN = os.path.join(VERIF, "lean", "CircBuf")
 DRIVER = os.path.join(LEAN, ".lake", "build", "bin", "driver")
+DRIVER_SRC = os.path.join(LEAN, ".lake", "build", "bin", "driver_src")
 HARNESS_DIR = os.path.join(VERIF, "harness")
 TARGET = os.path.join(WORK, "target")
 if REPO != "/repo":
@@ -52,6 +53,17 @@ def run_t1():
                        os.path.join(REPO, "src", "lib.rs"),
                        os.path.join(LEAN, "CircBuf", "Generated", "AddMod.lean")])
     return rc == 0, (out + err).strip()
+
+
+def run_t3():
+    """regenerate Generated/Core.lean (the element-level core of lib.rs) from the current source;
+    returns (ok, message, [(function, why)] that could not be translated)"""
+    rc, out, err = sh([sys.executable, os.path.join(VERIF, "translate", "t3_core.py"),
+                       os.path.join(REPO, "src", "lib.rs"),
+                       os.path.join(LEAN, "CircBuf", "Generated", "Core.lean")])
+    failed = re.findall(r"cannot translate `(\w+)`: (.*)", out + err)
+    last = (out + err).strip().split("\n")[-1] if (out + err).strip() else "T3: no output"
+    return rc == 0, last, failed
 
 
 def lake_build(targets):
@@ -207,6 +219,12 @@ def run_impl(binp, cases, extra_args=(), timeout_per_batch=None):
         crashes += 1
         start = i + 1
     return results
+
+
+def run_model_src(cases, timeout_per_batch=None):
+    """the same driver with the element-level core taken from the *translated* source"""
+    res = run_impl(DRIVER_SRC, cases, timeout_per_batch=timeout_per_batch)
+    return [None if (r and (r[-1].startswith("CRASH:") or r[0] == "NOT-RUN")) else r for r in res]
 
 
 def run_model(cases, timeout_per_batch=None):
